@@ -818,7 +818,7 @@ extern "C" fn noop_handler(_: libc::c_int) {}
 /// A signal (handler installed without SA_RESTART) interrupts the thread that is blocked waiting for its answer.  The
 /// transaction stays whole: the call still returns its own answer once the peer sends it, and the next call on another
 /// clone gets its own answer too (nothing stale is left in the socket).
-pub fn run_signal_case(ctx: &mut Ctx, c: &SignalCase) -> Result<(), String> {
+pub fn install_noop_sigusr2() {
     unsafe {
         let mut sa: libc::sigaction = std::mem::zeroed();
         sa.sa_sigaction = noop_handler as usize;
@@ -826,6 +826,10 @@ pub fn run_signal_case(ctx: &mut Ctx, c: &SignalCase) -> Result<(), String> {
         libc::sigemptyset(&mut sa.sa_mask);
         libc::sigaction(libc::SIGUSR2, &sa, std::ptr::null_mut());
     }
+}
+
+pub fn run_signal_case(ctx: &mut Ctx, c: &SignalCase) -> Result<(), String> {
+    install_noop_sigusr2();
     let (ep, mut peer) = make_endpoint(c.endpoint)?;
     let ep2 = ep.clone();
     let kind = c.kind;
